@@ -89,7 +89,7 @@ def gen_sysworld(rng, small=False):
         cls = rng.choice(list(CLS))
         others = rng.subset([l for l in letters if l != tl], 0, 2)
         stocks.append({"name": STOCK_NAMES[k], "cls": cls, "lt": None if cls == "simple" else rng.choice(list(LT)),
-                       "solver": rng.choice(["manual", "lapack"]), "process": rng.choice([None] + list(range(1, npr + 1))),
+                       "solver": rng.choice(["manual", "lapack"]), "process": rng.choice([None, 0] + list(range(1, npr + 1)) * 2),
                        "dims": [tl] + others})
     # ---- parameters
     params = []
